@@ -73,7 +73,9 @@ def domain_of(ex, v: Any, st: State) -> Domain:
     if h == "PathHolder":
         z = ex.term(v, st)
         seq = z3.Select(st.ph, z)
-        return Domain(z3.Length(seq), lambda i, s: T(seq[i]), "PathHolder")
+        d = Domain(z3.Length(seq), lambda i, s: T(seq[i]), "PathHolder")
+        d.seq = seq
+        return d
     raise Unsupported(f"iteration over {v!r}")
 
 
@@ -363,6 +365,14 @@ def eval_comprehension(ex, node: Any, st: State, kind: str) -> List[Tuple[State,
         dom = domain_of(ex, itv, s)
         if dom.concrete is not None:
             raise Unsupported("comprehension over a literal tuple")
+        if (kind == "list" and getattr(dom, "seq", None) is not None and not gen.ifs
+                and isinstance(node.elt, ast.Name) and isinstance(gen.target, ast.Name)
+                and node.elt.id == gen.target.id):
+            # [x for x in path]: the list view of the PathHolder's operator sequence
+            R = M.list_of_seq(dom.seq)
+            s.assume(M.rcls(R) == ex.ct.id("list"))
+            out.append((s, T(R, "list")))
+            continue
         out += comp_symbolic(ex, node, gen, dom, s, kind)
     return out
 
